@@ -209,7 +209,12 @@ namespace bloch::cli {
                     emitQasm = true;
                 } else if (arg.rfind(kFlagShotsPrefix, 0) == 0) {
                     isCliShots = true;
-                    cliShots = std::stoi(arg.substr(kFlagShotsPrefix.size()));
+                    // digits only, and small enough for an int: anything else ("abc", "", "3x",
+                    // "99999999999") is refused instead of reaching std::stoi
+                    std::string count = arg.substr(kFlagShotsPrefix.size());
+                    bool digits = !count.empty() && count.size() <= 9 &&
+                                  count.find_first_not_of("0123456789") == std::string::npos;
+                    cliShots = digits ? std::stoi(count) : 0;
                     if (cliShots <= 0) {
                         std::cerr << "--shots must be positive\n";
                         return 1;
